@@ -764,3 +764,154 @@ pub fn run_framing(report: &mut Report) -> u64 {
     }
     n
 }
+
+// ---------------- C18 on the real transports: the reading future is dropped mid-message ----------------
+enum Cmd {
+    Rpc,
+    Abort(usize),
+}
+
+async fn actor<T>(connect: impl std::future::Future<Output = Result<Session<T>, netconf::Error>>, mut rx: tokio::sync::mpsc::UnboundedReceiver<Cmd>, log: Arc<Mutex<ClientLog>>)
+where
+    T: Transport + 'static,
+    T::SendHandle: 'static,
+    T::RecvHandle: 'static,
+{
+    let mut session = match connect.await {
+        Ok(s) => {
+            log.lock().unwrap().established = Some(Ok(()));
+            s
+        }
+        Err(e) => {
+            log.lock().unwrap().established = Some(Err(format!("{e:?}")));
+            return;
+        }
+    };
+    let mut handles: Vec<Option<tokio::task::JoinHandle<()>>> = Vec::new();
+    while let Some(cmd) = rx.recv().await {
+        match cmd {
+            Cmd::Rpc => {
+                let k = handles.len();
+                log.lock().unwrap().results.push(None);
+                match session.rpc::<Get, _>(|b| b.finish()).await {
+                    Ok(fut) => {
+                        log.lock().unwrap().requests_sent += 1;
+                        let log = log.clone();
+                        handles.push(Some(tokio::spawn(async move {
+                            let r = fut.await.map(|o| o.to_string()).map_err(|e| format!("{e:?}"));
+                            log.lock().unwrap().results[k] = Some((r, Instant::now()));
+                        })));
+                    }
+                    Err(e) => {
+                        log.lock().unwrap().results[k] = Some((Err(format!("send failed: {e:?}")), Instant::now()));
+                        handles.push(None);
+                    }
+                }
+            }
+            Cmd::Abort(k) => {
+                if let Some(Some(h)) = handles.get(k) {
+                    h.abort();
+                }
+            }
+        }
+    }
+}
+
+/// For each transport: request 1 is outstanding and its future is the one reading; the peer delivers a
+/// prefix of reply 1; the future is dropped; request 2 is issued; the peer delivers the rest of reply 1
+/// and reply 2. Request 2 must complete with its own reply (C18), i.e. the transport must not lose or
+/// mis-frame bytes it had already taken when the reader was dropped.
+pub fn run_abandoned_reader(report: &mut Report) -> u64 {
+    let mut servers = Servers::start("C18");
+    let mut n = 0u64;
+    let r1 = reply_for(1);
+    let cuts: Vec<usize> = vec![1, 20, r1.len() / 2, r1.len() - 8, r1.len() - 6, r1.len() - 3, r1.len() - 1];
+    for xport in [Xport::Tls, Xport::Local, Xport::Ssh] {
+        for &cut in &cuts {
+            for rest_in_one_unit in [false, true] {
+                n += 1;
+                let log: Arc<Mutex<ClientLog>> = Arc::default();
+                let (tx, rx) = tokio::sync::mpsc::unbounded_channel();
+                _ = peers::take_reads();
+                let l2 = log.clone();
+                let (task, peer): (tokio::task::JoinHandle<()>, Option<Box<dyn Peer>>) = match xport {
+                    Xport::Tls => {
+                        servers.tls.drain();
+                        let port = servers.tls.port;
+                        let t = servers.rt.spawn(async move {
+                            let ca = peers::load_certs("ca.crt").remove(0);
+                            let cert = peers::load_certs("client.crt").remove(0);
+                            let key = peers::load_key("client.key");
+                            actor(Session::tls(("127.0.0.1", port), "localhost", ca, cert, key), rx, l2).await;
+                        });
+                        (t, servers.tls.accept(Duration::from_secs(5)).map(|p| Box::new(p) as Box<dyn Peer>))
+                    }
+                    Xport::Local => {
+                        let t = servers.rt.spawn(async move { actor(Session::junos_local(), rx, l2).await });
+                        (t, servers.local.accept(Duration::from_secs(5)).map(|p| Box::new(p) as Box<dyn Peer>))
+                    }
+                    Xport::Ssh => {
+                        servers.ssh.drain();
+                        let port = servers.ssh.port;
+                        let t = servers.rt.spawn(async move {
+                            let password: Password = SSH_PASSWORD.parse().unwrap();
+                            actor(Session::ssh(("127.0.0.1", port), "netconf".to_string(), password), rx, l2).await;
+                        });
+                        (t, servers.ssh.accept(Duration::from_secs(5), Some(SSH_PASSWORD.to_string())).filter(|p| p.established).map(|p| Box::new(p) as Box<dyn Peer>))
+                    }
+                };
+                let Some(mut peer) = peer else { panic!("machinery failure: no peer on {xport:?}") };
+                _ = peer.send_chunk(server_hello().as_bytes());
+                _ = wait_until(servers.prompt, || log.lock().unwrap().established.is_some());
+                let case = json!({"transport": format!("{xport:?}"), "reply_1_bytes_delivered_before_the_drop": cut, "of": r1.len(), "rest_in_one_unit": rest_in_one_unit});
+                let mut fail = |class: &str, what: String, report: &mut Report| {
+                    report.violation(&format!("C18:transport:{class}:{xport:?}"), &what, case.clone());
+                };
+                _ = tx.send(Cmd::Rpc);
+                if peer.read_message(Duration::from_secs(3)).is_none() {
+                    fail("request-not-received", "request 1 never reached the peer".into(), report);
+                    task.abort();
+                    continue;
+                }
+                _ = peers::take_reads();
+                _ = peer.send_chunk(&r1.as_bytes()[..cut]);
+                if peer.tapped() {
+                    _ = peers::wait_reads(1, Duration::from_millis(500));
+                } else {
+                    std::thread::sleep(Duration::from_millis(30));
+                }
+                // the reading future is abandoned while part of the message is inside the transport
+                _ = tx.send(Cmd::Abort(0));
+                std::thread::sleep(Duration::from_millis(10));
+                _ = tx.send(Cmd::Rpc);
+                if peer.read_message(Duration::from_secs(3)).is_none() {
+                    fail("session-unusable-after-drop", "request 2 could not be sent after the reading future was dropped".into(), report);
+                    task.abort();
+                    servers.reset_runtime();
+                    continue;
+                }
+                if rest_in_one_unit {
+                    let mut rest = r1.as_bytes()[cut..].to_vec();
+                    rest.extend_from_slice(reply_for(2).as_bytes());
+                    _ = peer.send_chunk(&rest);
+                } else {
+                    _ = peer.send_chunk(&r1.as_bytes()[cut..]);
+                    _ = peer.send_chunk(reply_for(2).as_bytes());
+                }
+                let ok = wait_until(servers.prompt, || log.lock().unwrap().results.get(1).is_some_and(Option::is_some));
+                let got = log.lock().unwrap().results.get(1).cloned().flatten().map(|r| r.0);
+                match (ok, got) {
+                    (true, Some(Ok(v))) if v == tag_for(2) => {}
+                    (true, Some(other)) => fail("survivor-gets-wrong-result", format!("request 2 resolved to {other:?} after the reader of reply 1 was dropped with {cut} bytes consumed"), report),
+                    _ => {
+                        fail("survivor-never-completes", format!("request 2 never resolved after the reader of reply 1 was dropped with {cut} bytes consumed"), report);
+                        servers.reset_runtime();
+                    }
+                }
+                peer.close(CloseKind::Eof);
+                task.abort();
+            }
+        }
+    }
+    n
+}
